@@ -21,7 +21,7 @@ PROPS["C12"] = {
                     "msm_specific / multi_exp (blst)", "EvaluationDomain algebra (generic + rayon)"],
     "trusted_base": [],
     "assumptions": [],
-    "claim": "Proof for the arithmetic kernels only: get_booth_index returns exactly the radix-2^c Booth digit for every 32-byte scalar, every window size 1..24 and every window (so the digits consumed by msm_serial/msm_best sum to the scalar), and best_fft's bitreverse is the bit-reversal involution for every n and every l <= 64. The bucket accumulation, butterflies and domain algebra are NOT decided.",
+    "claim": "Proof for the arithmetic kernels only: get_booth_index returns exactly the radix-2^c Booth digit for every 32-byte scalar, window size 1..24 and window; the window counts of msm_serial / msm_best always include the carry window; hence (Verus induction) the digits consumed by every Rust MSM path sum to the scalar; best_fft's bitreverse is the bit-reversal involution; the chunking arithmetic of parallelize / eval_polynomial partitions the slice exactly for every length and thread count. The bucket accumulation, butterflies and domain algebra are NOT decided.",
     "level_note": "Kani/CBMC over the full input domain (loops bounded by 32 bytes / 64 bits, unwinding assertions on); bitreverse is a nested fn and is extracted verbatim into a stand-alone crate each run (enclosing function dropped). Trusted: Kani+CBMC, rustc MIR.",
     "technique": "Kani function contract on get_booth_index + full-domain harnesses; Verus integer lemmas (contract-based deductive verification)",
     "design_ref": "DESIGN.md section 5, C12",
@@ -41,26 +41,26 @@ PROPS["C19"] = {
 PROPS["C16"] = {
     "units": {"kani": ["c16_serialization", "c16_pack", "c10_bytes", "c16_arch_columns"], "polyvc": ["c11_bls"]},
     "scope": "pure-Rust byte decoders: the automaton Serialize::deserialize family, pack/unpack of selector bytes, and (shared with C10) the canonical-field-encoding decoders",
-    "not_decided": ["VerifyingKey::read_from_cs, ZkStdLibArch::read (bincode), ZkStdLib::configure, ParamsKZG::read_custom, IR loading: generic / iterator / FFI code",
-                    "the out-of-range column-count and fixed-commitment-count panics described in the property text are NOT reachable by this family here",
+    "not_decided": ["VerifyingKey::read_from_cs, bincode itself, the rest of ZkStdLib::configure, ParamsKZG::read_custom, IR loading: generic / iterator / FFI code",
+                    "the fixed-commitment-count panic described in the property text (verifier.rs indexes vk.fixed_commitments) is NOT reachable by this family; the out-of-range column-count one is (and was repaired)",
                     "G1/G2 point decoders (blst)"],
     "trusted_base": [],
     "assumptions": [],
-    "claim": "Proof (Kani, bounded only in buffer length) that the pure-Rust byte decoders are total and canonical: every Serialize::deserialize instance returns Ok/Err for every buffer, advances by exactly the encoded size and never allocates from an unchecked length; pack/unpack are exact inverses on their documented domain; field decoders accept exactly the canonical encodings (see C10). Decoding of keys, parameters, architecture descriptors and IR programs is NOT decided.",
+    "claim": "Proof (Kani, bounded only in buffer length) that the pure-Rust byte decoders are total and canonical: every Serialize::deserialize instance returns Ok/Err for every buffer, advances by exactly the encoded size and never allocates from an unchecked length; pack/unpack are exact inverses on their documented domain; field decoders accept exactly the canonical encodings (see C10); every public checked point decoder of G1/G2 routes through the on-curve / subgroup checks (see C11); the architecture-descriptor decoder only returns descriptors on which ZkStdLib::configure does not panic. The body of VerifyingKey::read_from_cs (e.g. a fixed-commitment count that disagrees with the circuit), ParamsKZG::read_custom and IR loading are NOT decided.",
     "level_note": "Kani/CBMC; buffer items are bounded (length <= 24 bytes, content and length symbolic) and reported under `bounded`, never counted as proved; pack/unpack and the field decoders are full-domain. format! on error paths is stubbed.",
     "technique": "Kani harness-form contracts on the real decoders (contract-based deductive verification; bounded stand-in for buffer length)",
     "design_ref": "DESIGN.md section 5, C16",
 }
 PROPS["C10"] = {
     "units": {"verus": ["c10_jubjub_fr", "c10_bls_fq", "c10_curve25519_fp", "c10_bls_fq_consts", "c10_bls_fp_consts"], "kani": ["c10_bytes"]},
-    "scope": "the pure-Rust field code (Jubjub Fr: all limb arithmetic, Montgomery reduction, decoders) and the shipped constants; limb primitives adc/sbb/mac; canonical-encoding predicates of the BLS12-381 fields",
+    "scope": "all pure-Rust field code: Jubjub Fr and curve25519 Fp (limb arithmetic, Montgomery reduction, decoders), the const path of BLS12-381 Fq (from_raw), limb primitives adc/sbb/mac, Sum/Product over references, the shipped constants of Jubjub Fr / BLS Fq / BLS Fp, and the canonical-encoding predicates and checked raw decoders of the BLS12-381 fields",
     "not_decided": ["every blst_fr_* / blst_fp_* / blst_fp2/6/12_* routine: the run-time Fq/Fp/Fp2/Fp6/Fp12 arithmetic is C/assembly behind FFI",
                     "Fr::pow, pow_vartime, invert, sqrt (loops / 300-step addition chain over square/mul)",
                     "ff::helpers (Tonelli-Shanks), Bernstein-Yang inversion and Jacobi (ff_ext)", "macro-generated BN254 fields and towers (dev-curves)",
                     "k256 wrapper (external crate); curve25519 Fp: invert / sqrt / pow / from_mont / Sum / Product / lexicographically_largest", "Fp6/Fp12 Rust-level tower formulas"],
     "trusted_base": [],
     "assumptions": [],
-    "claim": "Proof for the pure-Rust field code and all shipped constants: every Jubjub Fr limb routine (add, sub, neg, double, mul, square, Montgomery reduction, from_raw) is shown, for ALL limb patterns, to compute the integer operation modulo q over the Montgomery abstraction, with the representation invariant val < q preserved; constants satisfy their defining equations. The blst-backed run-time arithmetic of BLS12-381 Fq/Fp and towers is ASSUMED, not proved.",
+    "claim": "Proof for the pure-Rust field code and the shipped constants: every limb routine of Jubjub Fr and curve25519 Fp (add, sub, neg, double, mul, square, Montgomery reduction, from_raw) and the const path of BLS12-381 Fq is shown, for ALL limb patterns, to compute the integer operation modulo the modulus over the Montgomery abstraction with the invariant val < q preserved; checked decoders accept exactly the canonical encodings; the published constants of Jubjub Fr, BLS Fq and BLS Fp satisfy their defining equations (evaluated on the extracted limbs). The blst-backed run-time arithmetic of BLS12-381 Fq/Fp and the towers, inversion / sqrt / pow loops, BN254 and k256 are ASSUMED or uncovered, not proved.",
     "level_note": "Verus/Z3 on function bodies extracted verbatim each run (contracts and ghost hints inserted, nothing edited); Kani/CBMC for byte-level decoders; integers modelled exactly. Trusted: Verus+Z3, Kani+CBMC, the extraction scanner; blst is outside.",
     "technique": "Verus contracts (requires/ensures + lemmas) on extracted real functions; Kani harness contracts for byte-level code",
     "design_ref": "DESIGN.md section 5, C10",
